@@ -14,6 +14,10 @@ type evaluator struct {
 	edges  map[int64]gmodel.Edge
 	params map[string]any
 	opts   Options
+
+	// shuffleSite counts the places where Options.Shuffle has permuted a stream so far, so that the same
+	// rows are permuted differently at different places of one evaluation.
+	shuffleSite int
 }
 
 func newEvaluator(g gmodel.Graph, params map[string]any, opts Options) (*evaluator, error) {
